@@ -85,7 +85,8 @@ fn add<V: Full>(prop: &mut Property, ctx: &Ctx) {
                     }
                     let lk = &ks.locals[(2 + v) % ks.locals.len()].bytes;
                     let sk = &ks.secrets[v % ks.secrets.len()].bytes;
-                    let wk = &ks.locals[(1 + v) % ks.locals.len()].bytes;
+                    // wrapping keys: zero, ones, vector (the degenerate values first)
+                    let wk = &ks.locals[v % ks.locals.len()].bytes;
                     let pair = &ks.pke[v % ks.pke.len()];
                     let pw: Vec<u8> = [&b""[..], b"pw", &[0u8, 1, 2, 255]][v % 3].to_vec();
                     let params = params_for::<V>(cost);
@@ -204,7 +205,7 @@ fn add<V: Full>(prop: &mut Property, ctx: &Ctx) {
                     };
                     let lk = &ks.locals[(1 + v) % ks.locals.len()].bytes;
                     let sk = &ks.secrets[v % ks.secrets.len()].bytes;
-                    let wk = &ks.locals[(2 + v) % ks.locals.len()].bytes;
+                    let wk = &ks.locals[v % ks.locals.len()].bytes;
                     let pair = &ks.pke[v % ks.pke.len()];
                     let pw = b"hunter2".to_vec();
                     let pbytes = params_to_bytes::<V>(&params_for::<V>(cost));
